@@ -30,6 +30,8 @@ pub struct Ctl {
     pub fail_all: AtomicBool,
     pub log: Mutex<Vec<Write>>,
     pub calls: AtomicI64,
+    /// > 0: every mutating call takes that many (tokio) milliseconds before it writes: slow storage, never failing
+    pub slow_ms: AtomicI64,
 }
 
 impl Ctl {
@@ -41,6 +43,7 @@ impl Ctl {
             fail_all: AtomicBool::new(false),
             log: Mutex::new(Vec::new()),
             calls: AtomicI64::new(0),
+            slow_ms: AtomicI64::new(0),
         })
     }
 }
@@ -94,6 +97,13 @@ impl<I: Backing> HStore<I> {
         (self.ctl.fail_after.swap(-1, Ordering::SeqCst), self.ctl.park_after.swap(-1, Ordering::SeqCst))
     }
 
+    async fn slow(&self) {
+        let ms = self.ctl.slow_ms.load(Ordering::SeqCst);
+        if ms > 0 {
+            tokio::time::sleep(std::time::Duration::from_millis(ms as u64)).await;
+        }
+    }
+
     fn record(&self, keyspace: &str, id: Key, ts: HLCTimestamp, data: Option<Vec<u8>>) {
         self.ctl.log.lock().push(Write { node: self.ctl.node, keyspace: keyspace.to_string(), id, ts, data });
     }
@@ -116,6 +126,7 @@ impl<I: Backing> Storage for HStore<I> {
     async fn remove_tombstones(&self, k: &str, keys: impl Iterator<Item = Key> + Send) -> Result<(), BulkMutationError<Self::Error>> {
         let keys: Vec<_> = keys.collect();
         self.ctl.calls.fetch_add(1, Ordering::SeqCst);
+        self.slow().await;
         let (f, p) = self.take_mode();
         if f >= 0 || p >= 0 {
             let n = (f.max(p) as usize).min(keys.len());
@@ -134,6 +145,7 @@ impl<I: Backing> Storage for HStore<I> {
 
     async fn put(&self, k: &str, d: Document) -> Result<(), Self::Error> {
         self.ctl.calls.fetch_add(1, Ordering::SeqCst);
+        self.slow().await;
         let (f, p) = self.take_mode();
         if f >= 0 {
             return Err(I::injected_error());
@@ -153,6 +165,7 @@ impl<I: Backing> Storage for HStore<I> {
     async fn multi_put(&self, k: &str, docs: impl Iterator<Item = Document> + Send) -> Result<(), BulkMutationError<Self::Error>> {
         let docs: Vec<_> = docs.collect();
         self.ctl.calls.fetch_add(1, Ordering::SeqCst);
+        self.slow().await;
         let (f, p) = self.take_mode();
         if f >= 0 || p >= 0 {
             let n = (f.max(p) as usize).min(docs.len());
@@ -173,6 +186,7 @@ impl<I: Backing> Storage for HStore<I> {
 
     async fn mark_as_tombstone(&self, k: &str, id: Key, ts: HLCTimestamp) -> Result<(), Self::Error> {
         self.ctl.calls.fetch_add(1, Ordering::SeqCst);
+        self.slow().await;
         let (f, p) = self.take_mode();
         if f >= 0 {
             return Err(I::injected_error());
@@ -188,6 +202,7 @@ impl<I: Backing> Storage for HStore<I> {
     async fn mark_many_as_tombstone(&self, k: &str, docs: impl Iterator<Item = DocumentMetadata> + Send) -> Result<(), BulkMutationError<Self::Error>> {
         let docs: Vec<_> = docs.collect();
         self.ctl.calls.fetch_add(1, Ordering::SeqCst);
+        self.slow().await;
         let (f, p) = self.take_mode();
         if f >= 0 || p >= 0 {
             let n = (f.max(p) as usize).min(docs.len());
